@@ -528,6 +528,14 @@ func search(t *testing.T, c *Check, tier, out string) {
 		if len(wo.Samples) < 2 && r.Nontrivial && len(p.JSON()) < 6000 {
 			wo.Samples = append(wo.Samples, p)
 		}
+		if r.Key == "harness/step-limit" {
+			// the plan needs more scheduler steps than the bound (an
+			// implementation with finer-grained transport writes): skipped and
+			// counted, the runner decides whether too many were skipped
+			wo.Stats["plans_over_step_limit"]++
+			wo.Invalid++
+			continue
+		}
 		stop := false
 		for vi, vk := range []string{r.Key, r.RaceKey} {
 			if vk == "" {
